@@ -73,13 +73,31 @@ func (c *picCtx) picBytes(img map[string]interface{}) []byte {
 	key := fmt.Sprintf("%s/%s/%d/%d", t, f, pw, ph)
 	b, cached := picBytesCache[key]
 	if !cached {
-		switch f {
-		case "jpeg":
-			b = tinyJPEGSize(tok, pw, ph)
-		case "gif":
-			b = tinyGIFSize(tok, pw, ph)
-		default:
-			b = tinyPNGSize(tok, pw, ph)
+		enc := func(k int) []byte {
+			switch f {
+			case "jpeg":
+				return tinyJPEGSize(k, pw, ph)
+			case "gif":
+				return tinyGIFSize(k, pw, ph)
+			}
+			return tinyPNGSize(k, pw, ph)
+		}
+		b = enc(tok)
+		if strings.HasSuffix(t, "b") {
+			// a twin: same format and pixel size as the token without the suffix and the same encoded length, other bytes
+			hb := fnv.New32a()
+			hb.Write([]byte(strings.TrimSuffix(t, "b")))
+			base := enc(int(hb.Sum32()%200) + 1)
+			found := false
+			for k := 1; k <= 400 && !found; k++ {
+				if c := enc(k); len(c) == len(base) && !bytes.Equal(c, base) {
+					b, found = c, true
+				}
+			}
+			if !found {
+				fmt.Fprintf(os.Stderr, "pics: no twin of equal length for %s\n", t)
+				os.Exit(2)
+			}
 		}
 		picBytesCache[key] = b
 		picShaCache[key] = picSha(b)
